@@ -1,10 +1,13 @@
 //! Drivers for the library-level properties. Usage: `libchecks <ID> [--tier quick|thorough] [--replay FILE]`.
 mod c01;
+mod c03;
 mod c04;
 mod c05;
 mod c08;
 mod c09;
 mod c11;
+mod conv;
+mod corpus;
 mod isa_sweep;
 mod mach;
 
@@ -13,6 +16,7 @@ fn main() {
     let id = std::env::args().nth(1).unwrap_or_default();
     match id.as_str() {
         "C01" => c01::run(c01::Mode::C01),
+        "C03" => c03::run(),
         "C04" => c04::run(),
         "C05" => c05::run(),
         "C08" => c08::run(),
